@@ -41,6 +41,7 @@ type procView struct {
 	onReorgEntry   func() bool             // true: the node dies here (the call fails, nothing applied)
 	afterProcessOK func(num uint64) bool   // true: the node dies right after the block was recorded
 	slow           func(num uint64) time.Duration
+	refuse         func(b aggsync.Block) error // non-nil result: the block cannot be applied (like a UNIQUE conflict with not-yet-rewound rows)
 }
 
 func (v *procView) dead() error { return fmt.Errorf("call from a dead node incarnation") }
@@ -59,6 +60,11 @@ func (v *procView) ProcessBlock(ctx context.Context, b aggsync.Block) error {
 	if v.slow != nil {
 		if d := v.slow(b.Num); d > 0 {
 			time.Sleep(d)
+		}
+	}
+	if v.refuse != nil {
+		if err := v.refuse(b); err != nil {
+			return err
 		}
 	}
 	if err := v.p.ProcessBlock(ctx, b); err != nil {
@@ -114,11 +120,15 @@ func startWinNode(ch *fakes.Chain, dir string, p *memProc, chunk uint64, buffer 
 		}
 		d := slowTrackedDelete[0]
 		ctl.SetDelay(func(kind, query string) {
-			if strings.HasPrefix(strings.TrimSpace(query), "DELETE FROM tracked_block") {
+			if d > time.Microsecond && strings.HasPrefix(strings.TrimSpace(query), "DELETE FROM tracked_block") {
 				time.Sleep(d)
 			}
 		})
-		rd, err = reorgdetector.VerifNewWithDB(cl, reorgdetector.Config{DBPath: path, CheckReorgsInterval: cfgtypes.NewDuration(time.Millisecond), FinalizedBlock: aggkittypes.FinalizedBlock}, reorgdetector.L1, dbh)
+		interval := time.Millisecond
+		if len(slowTrackedDelete) > 1 && slowTrackedDelete[1] > 0 {
+			interval = slowTrackedDelete[1]
+		}
+		rd, err = reorgdetector.VerifNewWithDB(cl, reorgdetector.Config{DBPath: path, CheckReorgsInterval: cfgtypes.NewDuration(interval), FinalizedBlock: aggkittypes.FinalizedBlock}, reorgdetector.L1, dbh)
 	} else {
 		rd, err = newDetector(cl, dir)
 	}
@@ -184,11 +194,16 @@ func c06Window(r *mon.Run, caseID string, g *rand.Rand, variant string) {
 		dir := scratchDir("c06w")
 		p := &memProc{failPlan: map[uint64]int{}}
 		chunk := uint64([]int{1, 3, 10}[g.Intn(3)])
-		var slowDel time.Duration
+		var slowDel, interval time.Duration
 		if variant == "retrack-window" {
 			slowDel = 25 * time.Millisecond
 		}
-		node, err := startWinNode(ch, dir, p, chunk, []int{0, 1, 100}[g.Intn(3)], slowDel)
+		if variant == "unprocessable-block" {
+			// a detector that looks every 80 ms (production: seconds): the driver reaches the new
+			// fork's blocks before the reorg is reported
+			slowDel, interval = time.Microsecond, 80*time.Millisecond
+		}
+		node, err := startWinNode(ch, dir, p, chunk, []int{0, 1, 100}[g.Intn(3)], slowDel, interval)
 		if err != nil {
 			r.Inconclusive("cannot start node: " + err.Error())
 			return
@@ -288,6 +303,42 @@ func c06Window(r *mon.Run, caseID string, g *rand.Rand, variant string) {
 				r.Violation("C06:initial-sync-incomplete", caseID, w, scen)
 				return
 			}
+		case "unprocessable-block":
+			// the new fork re-includes something the dropped blocks already recorded (e.g. the same
+			// batch verification in another block): until the store is rewound, the new fork's blocks
+			// cannot be applied (UNIQUE conflict) and ProcessBlock keeps failing
+			if w := waitAll(30 * time.Second); w != "" {
+				node.kill(time.Second)
+				r.Violation("C06:initial-sync-incomplete", caseID, w, scen)
+				return
+			}
+			ld, fin := lastDelivered(), ch.Finalized()
+			if ld <= fin {
+				node.kill(time.Second)
+				r.Eval("")
+				return
+			}
+			var refusals atomic.Int64
+			node.view.refuse = func(b aggsync.Block) error {
+				canon := ch.Canonical()
+				blocks, _ := p.snapshot()
+				for _, pb := range blocks {
+					if pb.Num < uint64(len(canon)) && pb.Hash != canon[pb.Num].Hash() {
+						refusals.Add(1)
+						return fmt.Errorf("UNIQUE constraint failed (block %d of a dropped fork is still recorded)", pb.Num)
+					}
+				}
+				return nil
+			}
+			at := fin + 1 + uint64(g.Intn(int(ld-fin)))
+			head := ch.Latest()
+			if nb := ch.Fork(at, int(head-at)+3, func(uint64, common.Hash, uint64) []fakes.LogSpec { return genericLogs(g, 1, true) }); nb == nil {
+				node.kill(time.Second)
+				r.Eval("")
+				return
+			}
+			trace = append(trace, fmt.Sprintf("fork at %d (finalized %d, old head %d); blocks of the new fork cannot be applied while rows of the dropped fork remain", at, fin, head))
+			scen["refused_attempts"] = &refusals
 		case "retrack-window":
 			// fork 1 replaces processed blocks by blocks that all carry events; the driver rewinds,
 			// acknowledges and re-tracks the new blocks while the detector's delete of the old range
@@ -334,7 +385,7 @@ func c06Window(r *mon.Run, caseID string, g *rand.Rand, variant string) {
 		}
 
 		// second incarnation (same detector database, same store)
-		if variant != "slow-store" && variant != "retrack-window" {
+		if variant != "slow-store" && variant != "retrack-window" && variant != "unprocessable-block" {
 			if node, err = startWinNode(ch, dir, p, chunk, 1); err != nil {
 				r.Inconclusive("cannot restart node: " + err.Error())
 				return
